@@ -3,11 +3,12 @@ use std::{
     fmt::{self, Debug, Display},
     hash::Hash,
     str::from_utf8_unchecked,
-    sync::{
-        atomic::{AtomicPtr, Ordering},
-        Arc,
-    },
+    sync::{atomic::Ordering, Arc},
 };
+#[cfg(not(feature = "verif_hooks"))]
+use std::sync::atomic::AtomicPtr;
+#[cfg(feature = "verif_hooks")]
+use crate::verif::VAtomicPtr as AtomicPtr;
 
 use faststr::FastStr;
 
